@@ -1,12 +1,13 @@
-(* Pbf/ProofsAll.v — the C01/C08 statements assembled from the three proof files. *)
+(* Pbf/ProofsAll.v — the C01/C08 block statements assembled from the proof files. *)
 From Coq Require Import ZArith List Bool.
-From Verif Require Import Base.Int64 Pbf.Tree Pbf.Model Pbf.Spec Pbf.ProofsIndep Pbf.ProofsFilter Pbf.ProofsDecode.
+From Verif Require Import Base.Int64 Pbf.Tree Pbf.Model Pbf.Spec Pbf.ProofsIndep Pbf.ProofsFilter Pbf.ProofsDecode Pbf.ProofsDense.
 Import ListNotations.
 Open Scope Z_scope.
 
-Theorem decode_encode_filtered_nodense b :
-  valid_block b = true -> no_dense b = true ->
+(* every configuration: the scan of an encoded valid block is the kept subsequence of its elements *)
+Theorem decode_encode_filtered b :
+  valid_block b = true ->
   forall c st, scan_result c st (encode_block b) = Ok (filter (keeps c) (elements b)).
 Proof.
-  intros Hv Hn c st. apply filter_is_subsequence. apply decode_encode_block_nodense; assumption.
+  intros Hv c st. apply filter_is_subsequence. apply decode_encode_block; assumption.
 Qed.
